@@ -394,7 +394,8 @@ impl BytecodeBuilder {
                 | Op::CreateAsyncGenerator { .. }
                 | Op::Throw { .. }
                 | Op::PopTry
-                | Op::FinallyEnd
+                | Op::FinallyStart { .. }
+                | Op::FinallyEnd { .. }
                 | Op::GetException { .. }
                 | Op::Rethrow
                 | Op::Await { .. }
